@@ -70,7 +70,7 @@ def check(model: Model, run: Run) -> None:
             if k is None or not k.is_enum:
                 continue
             n_conv += 1
-            lo, hi = mr.ival(c.args[0], frozenset(), fi)
+            lo, hi = mr.ival(c.args[0], mr.flow_for(fi).facts_at.get(id(c), frozenset()), fi)
             need = set(range(int(lo), int(hi) + 1)) if lo >= 0 and hi <= 255 else set(range(0, 37))
             have = set()
             for name, e in k.consts.items():
